@@ -54,10 +54,40 @@ type c09probe struct {
 	spy        bool
 }
 
+// c09writer hands every payload to the monitor; while reenter is set it first logs a record of its own through another
+// logger (what a destination that reports metrics through the same library does). The bytes of the record it was given
+// must not depend on that.
+type c09writer struct {
+	inner   mon.W
+	nest    *slog.Entry
+	reenter bool
+	busy    bool
+	n       int
+}
+
+func (w *c09writer) Write(p []byte) (int, error) {
+	if w.reenter && !w.busy {
+		w.busy = true
+		w.n++
+		w.nest.Info("nested record issued from inside a destination's Write", "len", len(p), "n", w.n, "pad", strings.Repeat("0123456789", 1+w.n%40))
+		w.busy = false
+	}
+	return w.inner.Write(p)
+}
+
+// c09verbProbe is the single call site of the verb probes (the caller field is an input of the call).
+func c09verbProbe(lg *slog.Entry, lvl slog.Level, msg string, args []any) {
+	lg.LogAttrs(bg, lvl, msg, args...)
+}
+
 func c09hist(c *Ctx) {
 	registerCustomLevels()
 	log := mon.NewLog()
-	w := mon.New(log, "W", mon.ShapePlain)
+	nestLog := mon.NewLog()
+	nestLog.Discard = true
+	nestLogger := slog.New("nested").Root()
+	nestLogger.SetWriter(mon.New(nestLog, "N", mon.ShapePlain)).SetErrorWriter(mon.New(nestLog, "N", mon.ShapePlain)).SetLevel(slog.AlwaysLevel)
+	w := &c09writer{inner: mon.New(log, "W", mon.ShapePlain), nest: nestLogger}
 	var lastCtx string
 	so := gen.StrOpt{HostilePc: 30, Long: true}
 	o := gen.Options{Str: so, MaxDepth: 3}
@@ -109,6 +139,11 @@ func c09hist(c *Ctx) {
 		} else {
 			slog.RemoveFlags(slog.Lcaller)
 		}
+		if r.Bool() {
+			slog.AddFlags(slog.LattrsR)
+		} else {
+			slog.RemoveFlags(slog.LattrsR)
+		}
 		flagsNow := slog.GetFlags()
 		p := genProbe(r)
 		// reference: the probe formatted by a fresh context (pool flushed)
@@ -123,11 +158,12 @@ func c09hist(c *Ctx) {
 		// several histories for the same probe
 		nh := 6
 		reuse := 0
-		for h := 0; h < nh; h++ {
+		var lastClass string
+		var hdesc []string
+		history := func(h int) int {
 			hr := gen.NewR(c.Seed, "C09h", fmt.Sprint(idx), h)
 			n := hr.Range(1, 20)
-			var lastClass string
-			var hdesc []string
+			lastClass, hdesc = "", nil
 			for i := 0; i < n; i++ {
 				q := genProbe(hr)
 				if hr.P(40) {
@@ -165,7 +201,22 @@ func c09hist(c *Ctx) {
 					}()
 					c.R.Add("history_records_with_a_panicking_value", 1)
 				}
-				if hr.P(15) {
+				w.reenter = hr.P(20)
+				if w.reenter {
+					setFormat(nestLogger, Format(hr.Intn(3)))
+					c.R.Add("history_records_to_a_destination_that_logs_itself", 1)
+				}
+				if hr.P(25) {
+					// through a verb, with call arguments (WriteThru takes its attributes as they are)
+					hl := newRoot("h", q.f, w, slog.AlwaysLevel)
+					hl.Set("hz", 1, "ha", "x")
+					lv := q.lvl
+					if lv == slog.PanicLevel || lv == slog.FatalLevel {
+						lv = slog.ErrorLevel
+					}
+					capture(log, func() { hl.LogAttrs(bg, lv, q.msg, anyAttrs(q.kvs)...) })
+					c.R.Add("history_records_through_a_verb_with_arguments", 1)
+				} else if hr.P(15) {
 					var wg sync.WaitGroup
 					wg.Add(1)
 					go func() { defer wg.Done(); emit(q) }()
@@ -173,14 +224,22 @@ func c09hist(c *Ctx) {
 				} else {
 					emit(q)
 				}
+				w.reenter = false
 				lastClass = fmt.Sprintf("%s/%s", q.f, levelClass(q.lvl))
 				if len(hdesc) < 20 {
 					hdesc = append(hdesc, fmt.Sprintf("%s:%v:%dattrs", q.f, q.lvl, len(q.kvs)))
 				}
 			}
-			histCtx := lastCtx
 			slog.SetFlags(flagsNow)
+			return n
+		}
+		for h := 0; h < nh; h++ {
+			n := history(h)
+			histCtx := lastCtx
+			// the destination may log a record of its own before it consumes the probe's payload
+			w.reenter = h%3 == 2
 			got := emit(p)
+			w.reenter = false
 			c.R.Add("probe_executions", 1)
 			if lastCtx == histCtx {
 				reuse++
@@ -203,6 +262,76 @@ func c09hist(c *Ctx) {
 				c.R.Violation(idx, "bytes-differ", "C09/bytes-differ/"+p.f.String()+"/"+levelClass(p.lvl),
 					fmt.Sprintf("the same WriteThru call produced different bytes after a history of %d other records (first difference at byte %d):\n fresh context: …%s\n after history: …%s", n, at, q(clip(string(ref[lo:]), 300)), q(clip(string(got[lo:]), 300))), desc)
 				return
+			}
+		}
+		// verb probes: ONE logger object that owns attributes (or inherits them), a constant timestamp layout, the same
+		// call issued right after creation and again after each history - with and without call arguments
+		{
+			vr := gen.NewR(c.Seed, "C09v", fmt.Sprint(idx), 0)
+			var lgv *slog.Entry
+			kind := "root"
+			if vr.P(30) {
+				kind = "child"
+				par := newRoot("par", p.f, w, slog.AlwaysLevel)
+				par.Set("pz", 1, "pa", "x")
+				lgv = par.New("kid")
+				lgv.SetWriter(w).SetErrorWriter(w)
+				setFormat(lgv, p.f)
+				lgv.SetLevel(slog.AlwaysLevel)
+			} else {
+				lgv = newRoot(p.name, p.f, w, slog.AlwaysLevel)
+			}
+			lgv.SetTimeFormat("TS") // a layout without any time element: the timestamp is constant text
+			half := len(p.kvs) / 2
+			if own := attrsOf(p.kvs[:half]); len(own) > 0 {
+				lgv.SetAttrs(own...)
+			}
+			if vr.P(40) {
+				lgv.Set("zeta", 1, "alpha", "A", "zeta", 2)
+			}
+			var args []any
+			if vr.Bool() {
+				args = anyAttrs(p.kvs[half:])
+			}
+			lv := p.lvl
+			if lv == slog.PanicLevel || lv == slog.FatalLevel {
+				lv = slog.WarnLevel
+			}
+			emitV := func() []byte {
+				slog.SetMessageMinimalWidth(p.minW) // the presentation settings are inputs of the call
+				slog.SetLevelOutputWidth(p.tagW)
+				evs := capture(log, func() { c09verbProbe(lgv, lv, p.msg, args) })
+				var b []byte
+				for _, e := range evs {
+					b = append(b, e.Data...)
+				}
+				return b
+			}
+			runtime.GC()
+			refV := emitV()
+			for h := 0; h < 3; h++ {
+				n := history(100 + h)
+				w.reenter = h == 2
+				got := emitV()
+				w.reenter = false
+				c.R.Add("verb_probe_executions", 1)
+				if len(args) == 0 {
+					c.R.Add("verb_probes_without_call_arguments", 1)
+				}
+				if !bytes.Equal(got, refV) {
+					at := 0
+					for at < len(got) && at < len(refV) && got[at] == refV[at] {
+						at++
+					}
+					lo := at - 40
+					if lo < 0 {
+						lo = 0
+					}
+					desc := map[string]any{"probe": map[string]any{"format": p.f.String(), "logger": kind, "level": lv.String(), "msg": q(clip(p.msg, 200)), "own_attrs": gen.DescKVs(p.kvs[:half]), "call_args": len(args)}, "history": hdesc, "flags": int64(flagsNow)}
+					c.R.Violation(idx, "bytes-differ", "C09/bytes-differ/same-logger/"+p.f.String(),
+						fmt.Sprintf("the same call on the same logger (own attributes, constant timestamp layout) produced different bytes after a history of %d other records (first difference at byte %d):\n first record: …%s\n after history: …%s", n, at, q(clip(string(refV[lo:]), 300)), q(clip(string(got[lo:]), 300))), desc)
+					return
+				}
 			}
 		}
 		c.R.Distinct("probe_classes", p.f.String()+"/"+levelClass(p.lvl))
